@@ -471,18 +471,22 @@ func c04SizeClass(n int) string {
 
 // c04PartB: stand-alone proxy hand-off under concurrent pollers.
 func c04PartB(r *core.Run, serverBin string) {
-	type cfg struct{ clients, pollers, perClient int }
+	// half: how many of the pollers half-close their connection (shut down the
+	// write side) as soon as the poll request is sent, and still read the reply
+	type cfg struct{ clients, pollers, perClient, half int }
 	var cfgs []cfg
 	for _, m := range []int{1, 2, 4, 8} {
-		cfgs = append(cfgs, cfg{16, m, r.Pick(6, 20)})
+		cfgs = append(cfgs, cfg{16, m, r.Pick(6, 20), 0})
 	}
-	cfgs = append(cfgs, cfg{64, 4, r.Pick(4, 10)}, cfg{64, 8, r.Pick(4, 10)})
+	cfgs = append(cfgs, cfg{64, 4, r.Pick(4, 10), 0}, cfg{64, 8, r.Pick(4, 10), 0})
 	// more than 100 requests queued before the first poll arrives (pollers start late)
-	cfgs = append(cfgs, cfg{170, 1, 1}, cfg{230, 3, 1})
+	cfgs = append(cfgs, cfg{170, 1, 1, 0}, cfg{230, 3, 1, 0})
+	cfgs = append(cfgs, cfg{16, 4, r.Pick(6, 20), 2}, cfg{150, 3, 1, 3})
 	if !r.Quick() {
 		for i := 0; i < 54; i++ {
-			cfgs = append(cfgs, cfg{[]int{4, 16, 32, 64}[i%4], []int{1, 2, 3, 4, 8, 16}[i%6], 10})
+			cfgs = append(cfgs, cfg{[]int{4, 16, 32, 64}[i%4], []int{1, 2, 3, 4, 8, 16}[i%6], 10, []int{0, 0, 1}[i%3]})
 		}
+		cfgs = append(cfgs, cfg{200, 4, 1, 4}, cfg{120, 2, 2, 1})
 	}
 	batchSigs := map[string]struct{}{}
 	for ci, c := range cfgs {
@@ -496,6 +500,7 @@ func c04PartB(r *core.Run, serverBin string) {
 		idTok := map[string]string{}   // ID -> token found in the fetched request
 		pollerOf := map[string][]int{} // ID -> pollers that received it
 		var batches []string
+		halfPolls, halfWithIDs := 0, 0
 		stop := make(chan struct{})
 		var pwg sync.WaitGroup
 		hc := &http.Client{Timeout: 40 * time.Second, Transport: &http.Transport{MaxIdleConnsPerHost: 64}}
@@ -512,31 +517,62 @@ func c04PartB(r *core.Run, serverBin string) {
 						return
 					default:
 					}
-					req, _ := http.NewRequest("GET", "http://"+addr+"/agent/pending", nil)
-					req.Header.Set("X-Inverting-Proxy-Backend-ID", "bB")
-					ctxDone := make(chan struct{})
-					go func() {
-						select {
-						case <-stop:
-							hc.CloseIdleConnections()
-						case <-ctxDone:
+					var b []byte
+					if p < c.half {
+						// raw poller: send the poll, shut down the write side, read the reply
+						conn, err := net.DialTimeout("tcp", addr, 5*time.Second)
+						if err != nil {
+							time.Sleep(5 * time.Millisecond)
+							continue
 						}
-					}()
-					resp, err := hc.Do(req)
-					close(ctxDone)
-					if err != nil {
-						select {
-						case <-stop:
-							return
-						default:
+						var w rawhttp.Builder
+						w.Line("GET /agent/pending HTTP/1.1").Field("Host", addr).Field("X-Inverting-Proxy-Backend-ID", "bB").End()
+						conn.Write(w.Bytes())
+						conn.(*net.TCPConn).CloseWrite()
+						conn.SetReadDeadline(time.Now().Add(40 * time.Second))
+						m, err := rawhttp.ReadResponse(bufio.NewReader(conn), "GET")
+						conn.Close()
+						mu.Lock()
+						halfPolls++
+						mu.Unlock()
+						if err != nil || m == nil {
+							time.Sleep(2 * time.Millisecond)
+							continue
 						}
-						time.Sleep(5 * time.Millisecond)
-						continue
+						b = m.Body
+						time.Sleep(2 * time.Millisecond)
+					} else {
+						req, _ := http.NewRequest("GET", "http://"+addr+"/agent/pending", nil)
+						req.Header.Set("X-Inverting-Proxy-Backend-ID", "bB")
+						ctxDone := make(chan struct{})
+						go func() {
+							select {
+							case <-stop:
+								hc.CloseIdleConnections()
+							case <-ctxDone:
+							}
+						}()
+						resp, err := hc.Do(req)
+						close(ctxDone)
+						if err != nil {
+							select {
+							case <-stop:
+								return
+							default:
+							}
+							time.Sleep(5 * time.Millisecond)
+							continue
+						}
+						b, _ = io.ReadAll(resp.Body)
+						resp.Body.Close()
 					}
-					b, _ := io.ReadAll(resp.Body)
-					resp.Body.Close()
 					var ids []string
 					json.Unmarshal(b, &ids)
+					if p < c.half && len(ids) > 0 {
+						mu.Lock()
+						halfWithIDs++
+						mu.Unlock()
+					}
 					mu.Lock()
 					batches = append(batches, fmt.Sprintf("p%d:%d", p, len(ids)))
 					for _, id := range ids {
@@ -653,7 +689,9 @@ func c04PartB(r *core.Run, serverBin string) {
 		}
 		batchSigs[strings.Join(batches, ",")] = struct{}{}
 		mu.Unlock()
-		r.Cases(fmt.Sprintf("B|clients=%d|pollers=%d", c.clients, c.pollers), 1)
+		r.Cases(fmt.Sprintf("B|clients=%d|pollers=%d|half-closing=%d", c.clients, c.pollers, c.half), 1)
+		r.Add("half_closed_polls_part_b", halfPolls)
+		r.Add("half_closed_polls_that_received_ids_part_b", halfWithIDs)
 		r.Add("ids_handed_out_part_b", len(listed))
 		r.Add("client_requests_part_b", total)
 		r.Add("multi_id_batches_part_b", multi)
